@@ -340,4 +340,12 @@ def bounded(ctx):
         from ..rt import c11 as rt
     except ImportError:
         return {"family": "bounded layer not built yet", "evaluations": 0, "distinct": 0, "violations": []}
-    return rt.run(ctx)
+    r_ = rt.run(ctx)
+    from ..rt import containers
+    c_ = containers.run(['series'])   # pandas containers: outside the array model, bounded only
+    r_["family"] = str(r_.get("family")) + " || " + c_["family"]
+    for k_ in ("evaluations", "distinct"):
+        r_[k_] = r_.get(k_, 0) + c_[k_]
+    r_.setdefault("per_clause", {}).update(c_["per_clause"])
+    r_["violations"] = list(r_.get("violations", [])) + c_["violations"]
+    return r_
